@@ -825,6 +825,49 @@ def retry_identify_histories(r, thorough):
     return cases
 
 
+def onbehalf_drop_histories(r, thorough):
+    """directed: a user whose memberships all came from an owner's on-behalf JOIN drops its connection without a LEAVE.
+    The memberships belong to the user, not to the connection that sent the JOIN: the user is gone from the channel
+    (MEMBER_LEFT to the others), ownership is only ever handed to a live member, an emptied channel is gone, and a later
+    session under the same name starts with nothing.  Ends with the audit."""
+    import srvmon
+    cases = []
+    for i in range(40 if thorough else 10):
+        mod = r.choice([None, None, MOD_CONFIGS[3]])
+        cfg = base_cfg(r, mod)
+        cfg.update({"max_clients": 10, "max_subs": 10, "max_conns": 16, "max_channels": 100, "max_inflight": 10})
+        g = Gen(r, cfg)
+        ks = _login(g, ["alice", "bob", "carol"])
+        ch = "!c1@localhost"
+        g.send(ks["alice"], frame("JOIN", [("id", g.rid()), ("channel", ch)]), [])
+        g.send(ks["alice"], frame("JOIN", [("id", g.rid()), ("channel", ch), ("on_behalf", "bob@localhost")]), [])
+        if i % 2:
+            g.send(ks["alice"], frame("JOIN", [("id", g.rid()), ("channel", ch), ("on_behalf", "carol@localhost")]), [])
+        g.ops.append({"t": "hangup", "k": ks["bob"], "script": []})
+        del g.conns[ks["bob"]]
+        g.send(ks["alice"], frame("MEMBERS", [("id", g.rid()), ("channel", ch)]), [])
+        tail = ["owner_leaves", "owner_drops", "owner_stays"][i % 3]
+        if tail == "owner_leaves":
+            g.send(ks["alice"], frame("LEAVE", [("id", g.rid()), ("channel", ch)]), [])
+        elif tail == "owner_drops":
+            g.ops.append({"t": "hangup", "k": ks["alice"], "script": []})
+            del g.conns[ks["alice"]]
+        k = g.next_k
+        g.next_k += 1
+        g.ops.append({"t": "open", "k": k})
+        g.send(k, frame("CONNECT", [("version", 1), ("heartbeat_interval", 0)]), [])
+        g.send(k, frame("IDENTIFY", [("username", "bob")]), [])
+        g.conns[k] = {"phase": 2, "user": "bob"}
+        g.send(k, frame("CHANNELS", [("id", g.rid()), ("page_size", 50)]), [])
+        g.ops[-1]["audit"] = "channels"
+        g.send(k, frame("MEMBERS", [("id", g.rid()), ("channel", ch), ("page_size", 100)]), [])
+        g.ops[-1].update({"audit": "members", "channel": ch})
+        g.send(k, frame("SET_CHAN_CONFIG", [("id", g.rid()), ("channel", ch), ("max_clients", 5)]), [])      # an outsider (or, in an emptied channel's name, nobody)
+        g.send(k, frame("JOIN", [("id", g.rid()), ("channel", ch)]), [])
+        cases.append({"cfg": cfg, "ops": g.ops + srvmon.audit_ops(g), "also": ["C05"]})
+    return cases
+
+
 def split_histories(r, thorough):
     """directed (C10 at the connection loop): a request header arrives in two writes and, in between, the server
     writes something to that same connection (a MESSAGE / EVENT caused by another client, or a reply to an earlier
